@@ -69,7 +69,7 @@ P = {
         "single_timeout": 240,
         "min_budget": 48,
         "race": True,
-        "race_runs": {"quick": 640, "thorough": 40000},
+        "race_runs": {"quick": 6000, "thorough": 120000},
     },
     "C09": {
         "runs": {"quick": 2000, "thorough": 200000},
